@@ -148,13 +148,28 @@ def r1_canonical_discipline(chk, F):
     nagg = 0
     nwrite = 0
     dur_s = "duration::Duration"
-    for fn in F.local_fns(False) + F.local_fns(True):
+    # the normaliser's own cone: normalize and the private helpers that only it (transitively) calls.  What they write is judged by
+    # R3 (from_parts over the full range), not by the discipline they implement
+    allf = F.local_fns(False) + F.local_fns(True)
+    callers = {}
+    for g in allf:
+        for bi, t in cfg.calls(g):
+            fid = t["f"].get("fn_id")
+            if fid is not None:
+                callers.setdefault(fid, set()).add(g["id"])
+    norm_cone = {g["id"] for g in allf if g["path"].endswith("duration::Duration::normalize")}
+    for _ in range(4):
+        for g in allf:
+            cs = callers.get(g["id"])
+            if g["id"] not in norm_cone and cs and cs <= norm_cone:
+                norm_cone.add(g["id"])
+    for fn in allf:
         if fn.get("impl", {}) and fn["impl"].get("derived"):
             derived = True
         else:
             derived = False
         norm_blocks = [bi for bi, t in cfg.calls(fn) if cfg.callee_path(t["f"]).endswith("duration::Duration::normalize")]
-        is_normalize = fn["path"].endswith("duration::Duration::normalize")
+        is_normalize = fn["id"] in norm_cone
         for bi, si, s in cfg.stmts(fn):
             if s["k"] != "a":
                 continue
@@ -172,6 +187,8 @@ def r1_canonical_discipline(chk, F):
                     chk.ob(rule, short(fn), "aggregate-const", ok, "constant canonical", detail=[c["v"] for c in cs])
                 elif derived and fn.get("name") == "clone":
                     chk.ob(rule, short(fn), "aggregate-clone", True, "derived Clone copies a canonical value")
+                elif is_normalize:
+                    pass  # a whole-value write by the normaliser itself (`*self = match .. { Some(c) => Self { .. }, .. }`): R3's business
                 else:
                     ok = bool(norm_blocks) and cfg.must_pass_through(fn, bi, norm_blocks)
                     chk.ob(rule, short(fn), "aggregate-then-normalize", ok, "must-pass-through normalize",
